@@ -315,7 +315,8 @@ fn emit_fn(d: &FnDirective, srcs: &mut Sources, out: &mut Out, stats: &mut norm:
         for (text, id, props) in &d.clauses {
             let s = out.cur();
             out.push(text);
-            out.regions.push(Region { start: s, end: out.line, kind: "clause".into(), item: item_name.clone(), clause: id.clone(), props: props.clone() });
+            let pr = if props.is_empty() { d.body_props.clone() } else { props.clone() };
+            out.regions.push(Region { start: s, end: out.line, kind: "clause".into(), item: item_name.clone(), clause: id.clone(), props: pr });
         }
     }
     if mode_sig {
@@ -381,7 +382,8 @@ fn emit_fn(d: &FnDirective, srcs: &mut Sources, out: &mut Out, stats: &mut norm:
                 for (text, id, props) in cl {
                     let s = out.cur();
                     out.push(text);
-                    out.regions.push(Region { start: s, end: out.line, kind: "loop-clause".into(), item: item_name.clone(), clause: id.clone(), props: props.clone() });
+                    let pr = if props.is_empty() { d.body_props.clone() } else { props.clone() };
+                    out.regions.push(Region { start: s, end: out.line, kind: "loop-clause".into(), item: item_name.clone(), clause: id.clone(), props: pr });
                 }
             }
             let lead: String = line.chars().take_while(|c| c.is_whitespace()).collect();
